@@ -56,7 +56,7 @@ CHECKS.update({
         ref="DESIGN.md §3 C04"),
     "C15": dict(
         technique="runtime monitoring: metamorphic pairs of executions of the real engine (rewritten query / prepared query / other store) compared as solution multisets",
-        text="Exploration. For generated queries (C04 generator plus property-path and aggregate queries) and data: permuting the triple patterns of every BGP, swapping adjacent join operands and UNION branches, renaming variables by a bijection, writing IRIs through PREFIX/BASE declarations (including two prefixes for one namespace), initBindings vs an added VALUES row, one prepared query evaluated on A, B, A, A, B against fresh parses (also when an evaluation raises), and the same data in Memory / SimpleMemory / AuditableStore(Memory) / a ReadOnlyGraphAggregate over a random disjoint partition must all give the same multiset of solutions. No reference evaluator is involved. Three listed findings (operand swap under binding push-down, path patterns repeated per member of an aggregate, initBindings seen by MINUS) are carved out by input predicates.",
+        text="Exploration. For generated queries (C04 generator plus property-path and aggregate queries) and data: permuting the triple patterns of every BGP, swapping adjacent join operands and UNION branches, renaming variables by a bijection, writing IRIs through PREFIX/BASE declarations (including two prefixes for one namespace), initBindings vs an added VALUES row, one prepared query evaluated on A, B, A, A, B against fresh parses (also when an evaluation raises), and the same data in Memory / SimpleMemory / AuditableStore(Memory) / a ReadOnlyGraphAggregate over a random disjoint partition must all give the same multiset of solutions. No reference evaluator is involved. Also: one query text with undeclared prefixes under interleaved prefix maps (initNs or graph bindings) vs the IRIs written out. Two listed findings (operand swap under binding push-down, initBindings seen by MINUS) are carved out by input predicates.",
         note="Consistently wrong answers are invisible to this check by construction (that is C04's job).",
         ref="DESIGN.md §3 C15"),
     "C05": dict(
@@ -76,7 +76,7 @@ CHECKS.update({
         ref="DESIGN.md §3 C07"),
     "C08": dict(
         technique="runtime monitoring: differential against the reference SELECT evaluator for the multiset, plus an all-pairs order monitor and a slice monitor over the sequence the engine returns",
-        text="Exploration. Generated SELECT queries over a pattern with an OPTIONAL (so keys can be unbound) under every combination of DISTINCT/REDUCED, ORDER BY with 1-3 ASC/DESC keys (variables and expressions, mixed term kinds, ties, unbound), LIMIT/OFFSET, projection expressions, GROUP BY on variables and expressions, the seven aggregates with and without DISTINCT, COUNT(*), HAVING, the implicit group and empty input. (1) the multiset of rows equals the reference's (rv/model/sparqlref.eval_select), with SAMPLE checked for membership and GROUP_CONCAT as a multiset of parts; (2) for every pair of rows i<j of the returned sequence the first sort key on which SPARQL defines an order must not put j before i; (3) LIMIT/OFFSET must return exactly that slice of the engine's own unsliced sequence with the right length; (4) the result variables are exactly the projected ones. Five listed aggregate findings plus the expression-level findings of C04 are carved out by input predicates computed on the reference's view of the groups.",
+        text="Exploration. Generated SELECT queries over a pattern with an OPTIONAL (so keys can be unbound) under every combination of DISTINCT/REDUCED, ORDER BY with 1-3 ASC/DESC keys (variables and expressions, mixed term kinds, ties, unbound), LIMIT/OFFSET, projection expressions, GROUP BY on variables and expressions, the seven aggregates with and without DISTINCT, COUNT(*), HAVING, the implicit group and empty input. (1) the multiset of rows equals the reference's (rv/model/sparqlref.eval_select), with SAMPLE checked for membership and GROUP_CONCAT as a multiset of parts; (2) for every pair of rows i<j of the returned sequence the first sort key on which SPARQL defines an order must not put j before i; (3) LIMIT/OFFSET must return exactly that slice of the engine's own unsliced sequence with the right length; (4) the result variables are exactly the projected ones. Listed aggregate findings (MIN/MAX/SAMPLE/GROUP_CONCAT over error values, SUM/AVG over non-numerics, MIN/MAX over non-literals, xsd:float promotion, STR of a blank node) are carved out by input predicates computed on the reference's view of the groups.",
         note="MIN/MAX over values whose relative order SPARQL leaves open, and ties between equal values of different datatypes, are dropped as latitude.",
         ref="DESIGN.md §3 C08"),
     "C09": dict(
